@@ -82,7 +82,11 @@ def py_ground_truth(src, vectors):
     from lib import pyoracle
     out = []
     for v in vectors:
-        r = pyoracle.run_cpython(src, "main", (v,))
+        try:
+            r = pyoracle.run_cpython(src, "main", (v,))
+        except pyoracle.Budget:
+            # the oracle's 5 s wall-clock alarm went off outside its own guarded region (seen at machine load 80): no ground truth
+            r = {"status": "budget", "outputs": []}
         if r["status"] == "ok":
             out.append({"status": "ok", "outputs": [int(o[0]) for o in r["outputs"]], "ret": None if r["ret"] == "None" else int(r["ret"])})
         elif r["status"] == "raise":
@@ -430,6 +434,7 @@ def analyse_batch(job):
             gts = [None] * len(vecs)
         methods = {r["stmt_id"]: r for r in rows if r.get("operation") == "method_decl" and r.get("name") != "out"}
         own_cache = {}
+        entry_cache = {}
         static_done = False
         prog_fail = False
         seen_case = set()
@@ -492,7 +497,17 @@ def analyse_batch(job):
                 if mid not in own_cache:
                     own_cache[mid] = owned_rows(vm.units[0], methods[mid])
                 own, members = own_cache[mid]
-                indeg0 = nodes - {d for ds in g.values() for d in ds}
+                if mid not in entry_cache:
+                    # lian's own notion of entry node: util.find_cfg_first_nodes (the nodes without predecessor) seeds the P2/P3 worklists
+                    try:
+                        import networkx as nx
+                        from lian.util import util as lutil
+                        gx = nx.MultiDiGraph()
+                        gx.add_edges_from((a_, b_) for a_, ds_ in g.items() for b_ in ds_)
+                        entry_cache[mid] = set(lutil.find_cfg_first_nodes(gx))
+                    except Exception:
+                        entry_cache[mid] = nodes - {d for ds in g.values() for d in ds}
+                indeg0 = entry_cache[mid]
                 def block_col(x):
                     """(owner row, column of the owner naming x's block, x first in block, x last in block)"""
                     r = row_of.get(x, {})
@@ -554,8 +569,15 @@ def analyse_batch(job):
                         "while_stmt", "for_stmt", "forin_stmt", "for_value_stmt", "dowhile_stmt")
                     # a loop as the very first statement of a method without parameters: its first executed statement is the
                     # target of the loop's back edge (or of the do-while's own LOOP_TRUE edge), so no node without predecessor marks it
-                    problems.append(("first-statement-not-an-entry-node:parameterless-method-starts-with-loop" if loop_first else
-                                     f"first-statement-not-an-entry-node:{desc_a(tr[0])}", tr[0], None))
+                    #   * the loop statement itself runs first (while / for-in without prebody): repaired by the fallback of
+                    #     util.find_cfg_first_nodes (d38d49f) — this signature is a regression of it;
+                    #   * a statement of the do-while body / of the condition prebody runs first (do-while; Go, Java, C loops): open
+                    if loop_first:
+                        sig0 = "first-statement-not-an-entry-node:parameterless-method-starts-with-" + \
+                            ("while-or-forin" if tr[0] == body_rows[0].get("stmt_id") else "dowhile-or-prebody-loop")
+                    else:
+                        sig0 = f"first-statement-not-an-entry-node:{desc_a(tr[0])}"
+                    problems.append((sig0, tr[0], None))
                 steps = list(zip(tr, tr[1:], range(1, len(tr))))
                 if getattr(fr, "ended", "normal") == "normal":
                     steps.append((tr[-1], -1, len(tr)))
@@ -676,7 +698,8 @@ def main():
     from lib import gen_cf
     chk = common.Check(PROP, rule=(
         "control-flow skeletons: systematic (every outer x inner construct nesting in 4 positions, with/without trailing "
-        "statement) + seeded random skeletons to depth 3, rendered for Python, JavaScript, TypeScript, Java, C, PHP and Go "
+        "statement; Python also while/else and for/else) + programs of parameterless procedures that start with each compound "
+        "statement + seeded random skeletons to depth 3, rendered for Python, JavaScript, TypeScript, Java, C, PHP and Go "
         "(per language only the constructs it can express); decision vectors enumerated exhaustively up to 48 per skeleton "
         "(sampled beyond); distinct_nontrivial = distinct activation traces with >= 3 statements that were checked against the CFG"))
     thorough = chk.tier == "thorough"
@@ -765,6 +788,8 @@ def main():
             chk.require(f"{lang}: programs analysed", 500)
             chk.require(f"{lang}: executions validated against ground truth and checked", VALIDATED_FLOOR.get(lang, 1000))
             chk.require(f"{lang}: activations checked", VALIDATED_FLOOR.get(lang, 1000))
+            # "no statement of another method": every method of every file of every batch (quick tier observes 1 700 .. 3 500)
+            chk.require(f"{lang}: methods whose CFG nodes were checked for belonging to the method", 1000)
     else:
         chk.nontrivial_case("replay-a"); chk.nontrivial_case("replay-b")
     for s in samples:
